@@ -22,7 +22,7 @@ EXPLANATION = (
     "proofs, enumerate / range(len) indices, try/except) or by an allow-table entry carrying the grammar or construction invariant "
     "(re-checked against the grammar model where it is a grammar fact); R10.4 third-party parse entry points are exception boundaries "
     "(known finding: not wrapped); R10.5 the silent-mode branch warns on every path and returns a fresh, effect-free holder; R10.6 model "
-    "objects (no __lt__) are never ordered without a key. R10.8 graph views (degree / nodes / edges ...) are subscripted only with keys known to be in that graph; R10.7 the evaluated flag is set last and on success only, so an accessor called after a failed one raises the library exception again instead of AttributeError. Does not decide: exceptions raised inside sqlfluff/sqlparse/networkx for "
+    "objects (no __lt__) are never ordered without a key. R10.9 an attribute read on a value that may be one of several repository classes is defined on each alternative or guarded by an isinstance test; R10.8 graph views (degree / nodes / edges ...) are subscripted only with keys known to be in that graph; R10.7 the evaluated flag is set last and on success only, so an accessor called after a failed one raises the library exception again instead of AttributeError. Does not decide: exceptions raised inside sqlfluff/sqlparse/networkx for "
     "well-formed calls, recursion depth."
 )
 RULE_TEXT = (
@@ -34,8 +34,6 @@ RULE_TEXT = (
 _GROUP_NONEMPTY = ("a sqlparse token group (Function / Identifier / Parenthesis) is never empty, so its last token exists", None)
 _STMT_WRAPS_ONE = ("a sqlfluff `statement` node wraps exactly one child statement segment (StatementSegment grammar is a single OneOf)", "statement-wraps-one")
 ALLOW = {
-    "extract_identifier:list_child_segments():index:-1": ("an alias_expression / identifier-bearing segment has at least one non-negligible child (the identifier itself)", "alias-nonempty"),
-    "extract_column_qualifier:list_child_segments():index:-1": ("a column_reference has at least one identifier child (Delimited, min 1)", "reference-nonempty"),
     "BaseExtractor._list_table_from_from_clause_or_join_clause:.segments:index:-1": ("a file_reference has at least one child (its path literal)", "reference-nonempty"),
     "SqlParseColumn._extract_source_columns:.tokens:index:-1": _GROUP_NONEMPTY,
     "get_subquery_parentheses:.tokens:index:-1": _GROUP_NONEMPTY,
@@ -54,7 +52,6 @@ ALLOW = {
     "MergeExtractor.extract:list_child_segments():index:i+1": ("the merge_statement grammar requires the join condition and match clauses after the USING source, so a bracketed source is never the last child", "merge-source-not-last"),
     "SqlParseLineageAnalyzer.analyze:token_first():optional-deref": ("statements reach analyze() only through split(), which keeps only pieces with a non-comment first token (rule R05.2)", None),
     "SqlParseLineageAnalyzer.analyze:.tokens:index:1": ("a sqlparse Parenthesis always holds its opening and closing token, so tokens[1] exists", None),
-    "SwapPartitionHandler.handle:get_name():optional-deref": ("a sqlparse Function always has a name token", None),
     "TargetHandler._handle:token_first():optional-deref": ("an Identifier group has at least one token", None),
 }
 
@@ -387,6 +384,55 @@ def rules(ctx: Ctx) -> None:
                    f"`{u(n)}`: the key must be known to be in the graph (has_node / has_edge / membership test, or an element of a view of the same graph){why}; "
                    f"networkx raises KeyError otherwise")
     ctx.floor("subscripts of graph views", n_view, 2)
+
+    # ---- R10.9 an attribute read on a value that may be one of several model / handler classes exists on each of them -------------------
+    # (Column.parent is a Table, a SubQuery or a Path: `.raw_name` exists on the first only - AttributeError for the others)
+    def _has_attr(c: Cls, a: str) -> bool:
+        for k in prog.mro(c):
+            if a in k.methods or a in k.setters or a in k.consts or a in k.annots or prog._has_instance_attr(k, a):
+                return True
+        return False
+
+    n_union = 0
+    for f in prog.funcs.values():
+        if not f.mod.name.startswith("sqllineage.core"):
+            continue
+        fl_ = None
+        for x in prog.walk_fn(f):
+            if not (isinstance(x, ast.Attribute) and isinstance(x.ctx, ast.Load)):
+                continue
+            t = prog.infer(x.value, f)
+            alts = [a for a in t.alts() if a.kind == "inst" and a.name in prog.classes]
+            if len(alts) < 2 or len(alts) != len([a for a in t.alts() if a.kind != "none"]):
+                continue
+            if fl_ is None:
+                fl_ = flow(prog, f)
+            if isinstance(x.value, ast.Name):
+                # only the definitions that can reach this use decide what the name may hold
+                rts = [prog._def_type(kind, node, f, 0) for kind, node in fl_.reaching_defs(x, x.value.id)]
+                ralts = [a for rt in rts for a in rt.alts() if a.kind == "inst" and a.name in prog.classes]
+                if rts and all(rt.kind != "unknown" for rt in rts) and ralts:
+                    alts = [a for a in alts if a in ralts]
+            missing = [a.name.rsplit(".", 1)[-1] for a in alts if not _has_attr(prog.classes[a.name], x.attr)]
+            if not missing or len(missing) == len(alts):
+                continue
+            n_union += 1
+            from ..cfg import controlling_facts as _cf2
+
+            facts = set(fl_.facts_for(x)) | set(_cf2(prog.parents, x))
+            vt = u(x.value)
+            narrowed = set()
+            for t_, p_ in facts:
+                if p_ and t_.startswith(f"isinstance({vt},"):
+                    try:
+                        call_ = ast.parse(t_, mode="eval").body
+                        narrowed |= {n_.id if isinstance(n_, ast.Name) else n_.attr for n_ in ast.walk(call_.args[1]) if isinstance(n_, (ast.Name, ast.Attribute))}
+                    except (SyntaxError, IndexError):
+                        pass
+            ok = bool(narrowed) and not any(m in narrowed or any(prog.is_subclass(prog.classes[a.name], c2) for c2 in prog.classes.values() if c2.name in narrowed and a.name.endswith("." + m)) for m in missing for a in alts if a.name.endswith("." + m))
+            ctx.ob("R10.9", f"attribute-exists-on-every-alternative:{f.owner}:{x.attr}", ok, loc(f.mod, x),
+                   f"`{u(x)}`: `{vt}` may be {sorted(a.name.rsplit('.', 1)[-1] for a in alts)}; `{x.attr}` is not defined on {missing} - needs an isinstance test that excludes them")
+    ctx.extra["attribute_reads_on_class_unions_with_partial_support"] = n_union
 
     # ---- R10.7 a failed evaluation is retried, not half-visible -------------------------------------
     # (after a library exception every later accessor must raise the same library exception again, not AttributeError on a holder
